@@ -482,3 +482,24 @@ def short_circuit_facts(node: ast.AST) -> "list[tuple[ast.expr, bool]]":
                 out.append((p.test, False))
         child, p = p, getattr(p, "parent", None)
     return out
+
+
+def module_scope(ctx: Ctx, f, stop: tuple = ()) -> list:
+    """f, its nested functions and the same-module repository functions it (transitively) calls - extracting part of a codec into
+    a helper keeps the anchor in scope."""
+    out, todo = [], [f]
+    while todo:
+        g = todo.pop()
+        if g in out or g in stop:
+            continue
+        out.append(g)
+        todo += list(g.nested.values())
+        for cs in ctx.cg.calls_in(g):
+            for c in cs.callees:
+                if c.module.name == f.module.name and c not in out:
+                    todo.append(c)
+    return out
+
+
+def pool(funcs: list) -> list:
+    return [(g, n) for g in funcs for n in own_nodes(g.node)]
